@@ -65,6 +65,11 @@ def rules(rep, m):
                 if f.name == drop_fn:
                     r2.ok()
                     continue
+                if f.name == "cmb_resource_terminate":
+                    # reviewed: the object ends here; terminate force-clears the holder the way the drop callback does (on
+                    # the pinned tree by calling it) - the holder's tag is the dying process's or the user's business
+                    r2.ok()
+                    continue
                 rm = [c for c in walk(f.body) if c["kind"] == "CallExpr"
                       and callee_ref(c) == "cmi_process_remove_holdable"]
                 good = False
